@@ -44,6 +44,33 @@ def gen_header(rng):
 
 SAME = "http://www.w3.org/2002/07/owl#sameAs"
 OTHER_P = "http://example.org/other"
+EXTRA = "http://www.w3.org/2004/02/skos/core#exactMatch"
+
+
+def predicate_config(k):
+    """(the `predicates` argument, the configured predicates, a predicate that is not configured): every kind of argument the
+    signature admits (None, one str, one URIRef, collections of several kinds holding one or two predicates).  When the default
+    owl:sameAs is NOT among the configured ones it serves as the other predicate."""
+    import rdflib
+
+    k = k % 9
+    if k == 0:
+        return None, [SAME], OTHER_P
+    if k == 1:
+        return SAME, [SAME], OTHER_P
+    if k == 2:
+        return rdflib.URIRef(EXTRA), [EXTRA], SAME
+    if k == 3:
+        return [SAME, EXTRA], [SAME, EXTRA], OTHER_P
+    if k == 4:
+        return (EXTRA, SAME), [EXTRA, SAME], OTHER_P
+    if k == 5:
+        return frozenset({EXTRA}), [EXTRA], SAME
+    if k == 6:
+        return {SAME, EXTRA}, [EXTRA, SAME], OTHER_P
+    if k == 7:
+        return {EXTRA: 1}.keys(), [EXTRA], SAME
+    return [rdflib.URIRef(SAME)], [SAME], OTHER_P
 
 
 def variants(u, pred, style=0):
@@ -152,7 +179,8 @@ class C18(Plugin):
             # staging: with early < len(recs) the graph and the web apps are created, and the same requests sent once, while the
             # converter holds only the first `early` records; the other records are then added to the live converter
             early = rng.choice([len(recs)] * 3 + list(range(len(recs))))
-            yield [recs, "", queries, headers, [], early, []]
+            # the eighth element: which kind of `predicates` argument configures the graph (predicate_config)
+            yield [recs, "", queries, headers, [], early, [], rng.choice([0, 0, 1, 2, 3, 4, 5, 6, 7, 8])]
 
     def observe(self, case):
         import rdflib
@@ -166,7 +194,12 @@ class C18(Plugin):
         used = {c for r in recs for u in [r[1], *r[3]] for c in u} | {c for q in queries for c in q[0]}
         early = case[5] if len(case) > 5 else len(recs)
         c = curies.Converter(qprops.mk_records(recs[:early]))
-        graph = MappingServiceGraph(converter=c)
+        pk = case[7] if len(case) > 7 else 0
+        parg, configured, other_p = predicate_config(pk)
+        graph = MappingServiceGraph(converter=c) if parg is None else MappingServiceGraph(converter=c, predicates=parg)
+
+        def pred_of(qi, is_pred):
+            return configured[qi % len(configured)] if is_pred else other_p
         proc = MappingServiceSPARQLProcessor(graph=graph)
         clients = self.make_clients(c)
         if early < len(recs):
@@ -193,7 +226,7 @@ class C18(Plugin):
 
         before, after = [], []
         for u, is_pred in queries[:1]:
-            for q in algebra_queries(u, SAME if is_pred else OTHER_P):
+            for q in algebra_queries(u, pred_of(0, is_pred)):
                 try:
                     b = alg_tree(translateQuery(parseQuery(q)).algebra)
                 except Exception:
@@ -204,28 +237,30 @@ class C18(Plugin):
                     a = ["<error " + type(e).__name__ + ">", []]
                 before.append(b)
                 after.append(a)
-        case = [recs, "".join(sorted(ch for ch in used if ch in _invalid_uri_chars)), queries, headers, renderings, early, before]
+        case = [recs, "".join(sorted(ch for ch in used if ch in _invalid_uri_chars)), queries, headers, renderings, early, before, pk]
 
         qa = []
         web_checked = False
         for qi, (u, is_pred) in enumerate(queries):
             row = []
             style = (len(recs) + qi + len(u)) % 4
-            for var, sparql in variants(u, SAME if is_pred else OTHER_P, style):
+            pred = pred_of(qi, is_pred)
+            for var, sparql in variants(u, pred, style):
                 try:
                     res = graph.query(sparql, processor=proc)
                     # the answers must be IRI terms (a plain str cannot be serialised as a SPARQL result)
                     row.append(sorted(str(b[0]) if isinstance(b[0], rdflib.URIRef) else f"<not an IRI term: {type(b[0]).__name__} {b[0]!r}>" for b in res))
                 except Exception as e:
                     row.append(["<error: " + type(e).__name__ + ">"])
-            if qi == 0:
-                # the same query over HTTP: Flask GET and POST, FastAPI GET
+            if qi == 0 and (pred in configured) == (pred == SAME):
+                # the same query over HTTP: Flask GET and POST, FastAPI GET (the served graphs have the default predicate: the
+                # comparison is made when the query's predicate has the same status there)
                 for vi in (0, 1, 2, 3):     # ?s bound and ?o bound, VALUES inside and after the WHERE block: all four through the served endpoints
-                    var, sparql = variants(u, SAME if is_pred else OTHER_P, style)[vi]
+                    var, sparql = variants(u, pred, style)[vi]
                     web = self.web_answers(clients, sparql, var)
                     for name, ans in web:
                         if ans != row[vi]:
-                            row[vi] = [f"<{name} differs: {ans}>"]
+                            row[vi] = [f"<{name} answers {ans}, graph.query answers {row[vi]}>"]
             qa.append(row)
         ha = []
         fl, fa = clients
@@ -253,6 +288,10 @@ class C18(Plugin):
                         break
             ha.append(None if v is None else Some(v))
         return case, [qa, ha, after]
+
+    def in_domain(self, case):
+        # the quantifier: URI prefixes that are IRI text (the generator's are http(s) URLs); the shrinker stays there
+        return all(u.startswith("http") for r in case[0] for u in [r[1], *r[3]])
 
     def make_clients(self, c):
         """One Flask client and one FastAPI client per case, created when the converter is first available and kept."""
